@@ -435,7 +435,8 @@ fn main() {
             tagged("words", g.words(nw).iter().map(|w| w.to_string())), tagged("xs", xs)));
     }
     // personal bests: objective values from a small set so that ties and strict improvements both occur
-    let objs = [0.0, 0.5, 1.0, 1.0, 2.0, 3.5, -1.0, 1e-9, 1e9];
+    // ... and improvements as small as one ulp / far below machine epsilon in absolute value
+    let objs = [0.0, 0.5, 1.0, 1.0, 2.0, 3.5, -1.0, 1e-9, 1e9, 1.0 + f64::EPSILON, 1e-17, 3e-17, 5e-324];
     for k in 0..(if a.thorough { 2000 } else { 300 }) {
         let n = g.rng.range(0, 10) as usize;
         let dim = g.rng.range(1, 5) as usize;
@@ -477,7 +478,8 @@ fn main() {
     for v in 0..3usize {
         for i in 0..4u32 {
             for s in 0..seeds {
-                let iters = if a.thorough { 120 } else { 25 };
+                // the 1-dimensional instance converges: a long run reaches improvements far below machine epsilon
+                let iters = if a.thorough { 120 } else { 25 } * if i == 1 { 6 } else { 1 };
                 let input = format!("(run (v {}) (i {}) (iters {}) (seed {}) (start {}) (end {}) (c1 {}) (c2 {}) (vmax {}) (np {}))",
                     v, i, iters, a.seed * 100 + s, fx(START_W[v]), fx(END_W[v]), fx(C1[v]), fx(C2[v]), fx(VMAX[v]), NP[v]);
                 let sx = Sx::parse(&input).unwrap();
